@@ -540,6 +540,13 @@ func corpus(r *gal.Rand) []*parseCase {
 	c = base("APKINDEX entry inside the signature member")
 	c.Sigs = []sigSpec{valid("RSA256", k1), {Name: "APKINDEX", Extra: true}}
 	add(c)
+	c = base("valid signature under a name with something before .SIGN.")
+	c.Sigs = []sigSpec{{Name: "x.SIGN.RSA256." + k1, Signer: k1, Digest: "SHA256"}}
+	add(c)
+	c = base("valid signature under a name with something after .rsa.pub")
+	c.Keys = []string{k1, k1 + "x"}
+	c.Sigs = []sigSpec{{Name: ".SIGN.RSA256." + k1 + "x", Signer: k1 + "x", Digest: "SHA256"}}
+	add(c)
 	c = base("name .SIGN.RSA.256.<key>: group 1 ends at the first dot")
 	c.Keys = []string{"256." + k1, k1}
 	c.Sigs = []sigSpec{{Name: ".SIGN.RSA.256." + k1, Signer: k1, Digest: "SHA256"}}
@@ -705,7 +712,10 @@ func randomCase(r *gal.Rand, i int) *parseCase {
 		pc.Sigs = append(pc.Sigs, s)
 	}
 	if r.Chance(1, 5) {
-		n := int64(len(text))
+		// the size record applies to the FIRST entry of the signed part; stay inside the
+		// modelled envelope (never more blocks than the entry has) — the sweep stage
+		// explores the rest on the real code
+		n := int64(len(pc.Rest[0].Entries[0].Body))
 		m := meta{}
 		switch r.Intn(4) {
 		case 0:
